@@ -406,7 +406,7 @@ func sortHostsReverseHostPort(hosts []string) []string {
 	sort.Slice(hosts, func(i, j int) bool {
 		ri, rj := rev[hosts[i]], rev[hosts[j]]
 		if ri.host != rj.host {
-			return ri.host > rj.host
+			return lessSpecificHost(rj.host, ri.host)
 		}
 		if ri.port != rj.port {
 			return ri.port > rj.port
@@ -422,6 +422,24 @@ func sortHostsReverseHostPort(hosts []string) []string {
 		return !isHostPattern(hosts[i]) && isHostPattern(hosts[j])
 	})
 	return hosts
+}
+
+// lessSpecificHost compares two reversed host names, i.e. the host names
+// from right to left. At the first difference a '*' is less specific than
+// any other character since it stands for all of them: *.foo.com is less
+// specific than *!.foo.com just as it is less specific than *a.foo.com.
+// Otherwise the characters decide and a name is less specific than its
+// extensions.
+func lessSpecificHost(a, b string) bool {
+	for i := 0; i < len(a) && i < len(b); i++ {
+		if a[i] != b[i] {
+			if a[i] == '*' || b[i] == '*' {
+				return a[i] == '*'
+			}
+			return a[i] < b[i]
+		}
+	}
+	return len(a) < len(b)
 }
 
 // isHostPattern returns true if the host is empty or contains glob characters.
